@@ -72,6 +72,14 @@ def cases(tier, seed):
             for hold in (((0.005,) if mode == 'x_abort_at_t3' else (0.001,)) if tier == 'quick' else (0.0002, 0.001, 0.005)):
                 out.append(dict(kind='exhaustive', layer=layer, mode=mode, role='orig', w=2, lat=(0.0001, 0.001), hold=hold, size=unit * 4 - 2,
                                 seed=seed * 131 + len(out)))
+    # the application submits the next message to the same peer exactly while the job thread is held (every line in turn): the new session must
+    # not be confused with the one the job thread is just finishing, timing out or cleaning up
+    for layer in ('j1939-21', 'j1939-22'):
+        unit = 60 if layer == 'j1939-22' else 7
+        for mode in ('cmdt', 'x_cts_then_silent', 'x_abort_at_t3', 'x_abort_after_dt', 'x_abort_on_rts'):
+            for hold in ((0.001,) if tier == 'quick' else (0.0002, 0.001, 0.005)):
+                out.append(dict(kind='exhaustive', resubmit=True, layer=layer, mode=mode, role='orig', w=255 if mode == 'cmdt' else 2, lat=(0.0001, 0.001), hold=hold,
+                                size=unit * 3 - 2, seed=seed * 131 + len(out)))
     # the converse: the RECEIVE thread is suspended at every source line of its frame handlers in turn while the job thread (and the rest of the
     # system) keeps running -- the other way round of "wherever the OS suspends the background thread relative to the thread that feeds frames in"
     for layer in ('j1939-21', 'j1939-22'):
@@ -110,6 +118,13 @@ def one_run(case, plan, seed):
     counters = {}
     info = dict(lines={}, overlap=0, where=[])
 
+    resub = {}
+
+    def do_resubmit():
+        dest = RA_ if mode.startswith('x_') else 0x20
+        rec = W.call('resubmit', ca.send_pgn, 0, 0xD0, dest, 6, list(pay2r))
+        resub['ret'] = rec['ret']
+        resub['exc'] = rec['exc']
     rx = case.get('thread') == 'rx'        # pre-empt the receive thread (frame handler suspended, job thread runs) instead of the job thread
     nodes = {}
 
@@ -128,6 +143,10 @@ def one_run(case, plan, seed):
                     t0 = sim.now
                     js = nodes[name].job_state if rx and name in nodes else None
                     w0 = len(js.waits) if js is not None else 0
+                    if case.get('resubmit') and not resub:
+                        # the application submits its next message to the same peer while the thread is held at this very line
+                        resub['t'] = sim.now + hold / 2
+                        sim.after(hold / 2, do_resubmit)
                     if rx and name in nodes:
                         # make sure the job thread of this stack makes passes while the handler is suspended (on its own it sleeps until the
                         # next deadline it knows of): an unrelated one-shot application timer, added now, due in the middle of the hold
@@ -165,6 +184,9 @@ def one_run(case, plan, seed):
     pay = [rng.randrange(256) for _ in range(size)]
     ca = W.ca(A, 0x10, identity_number=1)
     W.listen_ca(ca, 'A')
+    pay2r = [x ^ 0x3C for x in pay] + [1, 2, 3]          # the re-submission is three bytes longer than the first message
+    from checks.c10 import RA as RA_
+    R = None
     if mode.startswith('x_'):
         from checks.c10 import Peer, RA
         sim.trace_hook = None
@@ -236,7 +258,16 @@ def one_run(case, plan, seed):
         other += [d for d in W.deliv['B2'] if d not in ex2]
         if len(ex2) != 1:
             exact = exact[:0] if len(ex2) == 0 else exact + ex2        # make the count wrong so that judge() reports it
-    res = dict(W=W, exact=len(exact), other=other, n={k: v['n'] for k, v in counters.items()}, lines={k: v['lines'] for k, v in counters.items()},
+    if case.get('resubmit'):
+        # the re-submission: delivered exactly once if send_pgn accepted it, not at all otherwise
+        if R is not None:
+            n2 = sum(1 for c in R.completed if c[0] == 0x10 and c[2] == len(pay2r))
+        else:
+            ex2r = [d for d in W.deliv['B'] if d[4] == bytes(pay2r) and d[3] == 0x10]
+            other = [d for d in other if d not in ex2r]
+            n2 = len(ex2r)
+        resub['delivered'] = n2
+    res = dict(resub=resub, W=W, exact=len(exact), other=other, n={k: v['n'] for k, v in counters.items()}, lines={k: v['lines'] for k, v in counters.items()},
                info=info, ret=W.calls[0] if W.calls else None)
     return res
 
@@ -256,11 +287,28 @@ def judge(case, r, viol, what, obs):
     if r['exact'] != want:
         viol.add('lost_or_duplicated', '%s: payload delivered %d times, %d expected (pre-empted at %s)' % (what, r['exact'], want, locs),
                  how='lost' if r['exact'] < want else 'dup', role=case.get('role', 'both'), **tag)
+    rs = r.get('resub') or {}
+    if 'ret' in rs:
+        obs['resubmissions'] = obs.get('resubmissions', 0) + 1
+        if rs.get('exc'):
+            viol.add('resubmit_raised', '%s: send_pgn for the next message (submitted during the hold at %s) raised %s' % (what, locs, rs['exc']), **tag)
+        elif rs['ret'] is True:
+            obs['resubmissions_accepted'] = obs.get('resubmissions_accepted', 0) + 1
+            # (a connection abort of the scripted peer that reaches the stack after the re-submission legitimately ends the new session too:
+            #  J1939-21/-22 aborts name the pair / session number, and the new session re-uses them)
+            from checks.c06 import is_abort as _ia
+            late_abort = any(nm == 'A' and t >= rs['t'] and W.bus.frames[idx].src == 'R' and _ia(W.bus.frames[idx], layer == 'j1939-22')
+                             for (t, nm, idx) in W.bus.delivered)
+            if rs.get('delivered') != 1 and not (late_abort and not rs.get('delivered')):
+                viol.add('resubmit_lost', '%s: the next message to the same peer, accepted by send_pgn during the hold at %s, was delivered %d times' % (what, locs, rs.get('delivered', -1)),
+                         how='lost' if not rs.get('delivered') else 'dup', **tag)
+        elif rs.get('delivered'):
+            viol.add('resubmit_lost', '%s: the next message was refused by send_pgn but delivered %d times' % (what, rs['delivered']), how='refused_but_delivered', **tag)
     for d in r['other']:
         viol.add('corrupt_delivery', '%s: receiver got len=%d pgn=%05X (pre-empted at %s)' % (what, len(d[4]), d[2], locs), **tag)
     for d in ([] if case['mode'].startswith('x_in_') else W.deliv['A']):
         fd = layer == 'j1939-22'
-        okk = d[3] in (0x20, 0x21) and len(W.deliv['A']) <= {'cmdt2': 2, 'cmdt_chain': 3}.get(case['mode'], 1)      # end-of-message notification(s) (+ the command), form not judged
+        okk = d[3] in (0x20, 0x21, 0x30) and len(W.deliv['A']) <= {'cmdt2': 2, 'cmdt_chain': 3}.get(case['mode'], 1) + (1 if case.get('resubmit') else 0)      # end-of-message notification(s) (+ the command), form not judged
         if not okk:
             viol.add('unexpected_delivery', '%s: originator listener got len=%d' % (what, len(d[4])), **tag)
     # a transfer that completes cleanly un-pre-empted must not end with a connection abort from either side under pre-emption
@@ -276,7 +324,7 @@ def judge(case, r, viol, what, obs):
 
 def run_case(case):
     viol = M.Violations()
-    obs = dict(preempted_runs=0, rx_preempted_runs=0, holds_overlapping_reception=0, distinct_lines_max=0, line_events_baseline=0)
+    obs = dict(resubmissions=0, resubmissions_accepted=0, preempted_runs=0, rx_preempted_runs=0, holds_overlapping_reception=0, distinct_lines_max=0, line_events_baseline=0)
     base = one_run(case, {}, case['seed'])
     judge(case, base, viol, 'baseline', obs)
     nA, nB = base['n']['A'], base['n']['B']
@@ -299,7 +347,7 @@ def run_case(case):
             for w in r['info']['where']:
                 points.append(w[2])
             r['W'].close()
-        sig = repr((case.get('thread', 'job'), case['layer'], case['mode'], case['role'], case['w'], tuple(case['lat']), case['hold']))
+        sig = repr((case.get('thread', 'job'), bool(case.get('resubmit')), case['layer'], case['mode'], case['role'], case['w'], tuple(case['lat']), case['hold']))
     elif case['kind'] == 'pairs':
         node = 'A' if case['role'] == 'orig' else 'B'
         N = base['n'][node]
